@@ -49,7 +49,15 @@ def cases(seed, tier):
             sp = np.array([-40.0, -55.0, vt + 13, vt + 40, vt + 15, -27.0, -35.0, -81.0])
             m = rng.random(nc) < (1.0 if vmode == "singular" else 0.4)
             v[m] = sp[rng.integers(0, len(sp), m.sum())]
-        out.append({"struct": st, "ins": ins, "v": [float(x) for x in v], "vt_scalar": vt,
+        bottom_up = None
+        if k % 6 == 5:
+            # channels inserted into compartments BEFORE they are assembled into branches / cells / a network (several channels sharing
+            # one current name, e.g. K+Km -> i_K, CaL+CaT -> i_Ca): every one of them must still be initialised
+            from jxmon.props import c12
+            bottom_up = [c12.gen_cell(rng, 3) for _ in range(int(rng.integers(1, 3)))]
+            nc = sum(len(b) for c in bottom_up for b in c["branches"])
+            v = rng.uniform(-120, 60, nc)
+        out.append({"struct": st, "ins": ins, "v": [float(x) for x in v], "vt_scalar": vt, "bottom_up": bottom_up,
                     "vt": [float(x) for x in (np.full(nc, vt) if k % 3 else rng.uniform(-70, -45, nc))],
                     "taumax": [float(x) for x in trees.logu(rng, 100, 1e4, nc)],
                     "vx": [float(x) for x in rng.uniform(-5, 10, nc)], "vmode": vmode,
@@ -68,9 +76,20 @@ def run_case(case, rec):
 
     st = case["struct"]
     nc = trees.total_comps(st)
-    m = rec.call("build", build.build_structure, st)
     objs = []
     seen = set()
+    if case.get("bottom_up"):
+        import jaxley as jx
+        from jxmon.props import c12
+        cells = [rec.call("build", c12.build_cell, c) for c in case["bottom_up"]]
+        m = cells[0] if len(cells) == 1 else rec.call("build", jx.Network, cells)
+        nc = len(m.nodes)
+        for name in c12.CH:
+            if name in m.nodes.columns and m.nodes[name].any():
+                objs.append((getattr(chmod, name)(), {"ch": name, "rename": None, "rows": [int(i) for i in np.where(m.nodes[name].to_numpy())[0]]}))
+        case = dict(case, ins=[])
+    else:
+        m = rec.call("build", build.build_structure, st)
     for ins in case["ins"]:
         obj = getattr(chmod, ins["ch"])()
         if ins["rename"]:
